@@ -365,6 +365,11 @@ impl Ctx {
     pub fn count(&mut self, name: &str, n: u64) {
         *self.counters.entry(name.to_string()).or_insert(0) += n;
     }
+    /// keep the maximum (name should start with "max." so that workers are merged by maximum too)
+    pub fn count_max(&mut self, name: &str, n: u64) {
+        let e = self.counters.entry(name.to_string()).or_insert(0);
+        *e = (*e).max(n);
+    }
     /// non-vacuity goal reached (E-hist `sometimes` properties)
     pub fn goal(&mut self, name: &str) {
         *self.goals.entry(name.to_string()).or_insert(0) += 1;
